@@ -82,6 +82,11 @@ def run(ctx, model):
             ctx.violation("R-NUM-BOUNDS", f.relpath, f.short, "length bounds", f"{inp}: default length is not 1..unbounded",
                           f.node.lineno, inp=inp)
     bounds = [(1, None), (0, None), (0, 3), (2, 2), (1, 1), (2, 5), (0, 0), (4, None)]
+    # multi-digit bounds, the regex engine's repeat limits and the neighbours of every integer constant of the chain
+    from ..consts import interesting_ints, around
+    chain = [c.methods["__init__"] for c in [ci] + list(ci.mro()) if "__init__" in c.methods]
+    special = [c for c in around(interesting_ints(chain, lo=2, hi=2 ** 40), lo=2) if c > 16]
+    bounds += [(10, 12), (17, 17), (1, 100), (99, None), (1, 65535), (3, 65536), (1, 2 ** 32 - 1)] + [(1, c) for c in special] + [(c, None) for c in special]
     for base in (2, 10, 16):
         for lo, hi in bounds:
             for ext in (True, False):
@@ -114,7 +119,9 @@ def run(ctx, model):
     # ---------------- Word
     ci = model.cls(ESS, "Word")
     f = ci.methods["__init__"]
-    wbounds = [(1, None), (1, 1), (2, 2), (2, 5), (1, 7), (3, None)]
+    wbounds = [(1, None), (1, 1), (2, 2), (2, 5), (1, 7), (3, None), (10, 12), (17, 17), (1, 100), (99, None), (1, 65535), (3, 65536)]
+    chain = [c.methods["__init__"] for c in [ci] + list(ci.mro()) if "__init__" in c.methods]
+    wbounds += [(1, c) for c in around(interesting_ints(chain, lo=2, hi=2 ** 40), lo=2) if c > 16]
     for lo, hi in wbounds:
         for glob in (True, False):
             for ext in (True, False):
